@@ -210,10 +210,13 @@ impl Regex {
             );
         }
         self.check_matches_empty_string()?;
-        Ok(AnalyzeIter::new(
-            &self.re_program.pattern,
-            self.matcher(haystack),
-        ))
+        // with the 'q' flag the pattern is a literal: it has no groups
+        let pattern: &[char] = if self.re_program.flags.is_literal() {
+            &[]
+        } else {
+            &self.re_program.pattern
+        };
+        Ok(AnalyzeIter::new(pattern, self.matcher(haystack)))
     }
 
     // TODO: continue translating ARegexIterator
